@@ -233,13 +233,19 @@ func (ex *Exec) newRef(st *State) *Term {
 		ex.assume(st, ex.tb.Ne(r, ex.refLit(0)))
 		return r
 	}
-	return ex.tb.Add(ex.allocBase, ex.tb.Int(int64(ex.allocN)))
+	r := ex.tb.Add(ex.allocBase, ex.tb.Int(int64(ex.allocN)))
+	if ex.discover != nil {
+		ex.discoverFresh[r.id] = true
+	}
+	return r
 }
 
 // isFreshRef: the reference was allocated by the code being executed (writes to
 // such objects are invisible to the pre-state and so not part of a frame).
 func (ex *Exec) isFreshRef(t *Term) bool {
-	return ex.allocBase != nil && t.Op == "+" && len(t.Args) == 2 && ex.allocBases[t.Args[0].id] && t.Args[1].ival != nil
+	// only objects allocated while the current write-set discovery is running: they did
+	// not exist in the state the discovery started from
+	return ex.discover != nil && ex.discoverFresh[t.id]
 }
 
 // allocFrontierBump: after unknown code ran, objects it allocated may collide
